@@ -34,10 +34,11 @@ theorem worker_shape : MW.Gen.Proto.worker =
 theorem asyncImport_shape : MW.Gen.Proto.asyncImport =
     [.ret, .call "suspend", .ret /- abort -/, .call "defer resume", .call "Update", .ret, .ret] := by decide
 
+/-- one-phase removal (since the D30 fix): every round – including the first – checks quit, suspends the
+    follower, runs one database transaction, resumes -/
 theorem asyncRemove_shape : MW.Gen.Proto.asyncRemove =
-    [.ret, .call "suspend", .ret /- abort -/, .call "Update", .call "resume", .ret,
-     .loop, .sel ["recv quit"] true, .ret /- abort -/,
-       .call "suspend", .ret /- abort -/, .call "Update", .call "resume", .ret, .ret] := by decide
+    [.ret, .loop, .sel ["recv quit"] true, .ret /- abort -/,
+       .call "suspend", .ret /- abort -/, .call "Update", .call "resume", .ret /- error -/, .ret /- finished -/] := by decide
 
 theorem suspend_shape : MW.Gen.Proto.suspend = [.sel ["send sigSuspend", "recv quit"] false, .ret, .ret] := by decide
 theorem resume_shape : MW.Gen.Proto.resume = [.sel ["send sigResume", "recv quit"] false] := by decide
@@ -87,7 +88,7 @@ theorem no_deadlock_current (n : Nat) (s : St) (h : Reach Shape.current (Cfg.cur
 
 /-- prefix_deadlock: the skeleton before the D12 fix has a reachable state that is stuck for good: the
     worker stands at the bare send of suspend(), the follower has returned on quit, Stop waits for the
-    wait group (witness: one queued removal, stop request right after the worker took it). -/
+    wait group (witness: one queued import, stop request right after the worker took it). -/
 theorem prefix_deadlock : ∃ (c : Cfg) (s : St), c.busy < c.cap ∧ Reach .preFix c s ∧
     ¬ CoreEnabled .preFix c s ∧ ¬ Final s ∧ ¬ Quiescent s :=
   ⟨cfg4, stuck, by decide, stuck_reachable, stuck_is_stuck.1, stuck_is_stuck.2.1, stuck_is_stuck.2.2⟩
